@@ -27,9 +27,9 @@ P = {
          "pairs, in-order flattening and parent attribution equal the stack rule for every token sequence up to the recorded length over 7 atoms (exhaustive) and random sequences up to 40 tokens, several delimiter pairs"),
  "C11": ("5 C11", "line-level reference monitor on block documents: surviving trimmed line sequence vs. input lines minus the four removed lines; verbatim test for too-short blocks",
          "for every generated unwrap layout (0..6 lines between the tags, odd wrappers, nested elements, any position) exactly the two tag lines and two wrapper lines disappeared and un-unwrappable blocks stayed verbatim"),
- "C12": ("5 C12", "line-level reference monitor: leading whitespace of every surviving inner line vs. R-dedent (outer-to-inner composition, irregular layouts skipped); KF-C12-L1 recognised by an exact model",
+ "C12": ("5 C12", "line-level reference monitor: leading whitespace of every surviving inner line vs. R-dedent (outer-to-inner composition, irregular layouts skipped)",
          "every surviving inner line had exactly the reference indentation, unchanged remainder and indentation taken from the old one, for units {2sp,4sp,tab} x tag indent 0..2 x first-line offsets x nesting depth 1..3 x line-1 / later"),
- "C13": ("5 C13", "line-level reference monitor on default-strategy block documents: byte-for-byte surviving lines + blank-line arithmetic a+b-[a>0 and b>0]; KF-C13-L1 recognised by an exact patch model",
+ "C13": ("5 C13", "line-level reference monitor on default-strategy block documents: byte-for-byte surviving lines + blank-line arithmetic a+b-[a>0 and b>0]",
          "surviving non-blank lines byte-identical and in order, blank-line formula exact for every (b,a) in 0..4^2 x blank flavour x indent x neighbours x pending parent x final newline x second block (exhaustive), plus random block documents"),
  "C14": ("5 C14", "alignment monitor: k-th non-whitespace character of (input minus extents) is the k-th of the output, so every untouched stretch owns an exact output span that must equal the trimmed stretch",
          "every maximal untouched stretch (per line inside unwrapped bodies) appeared verbatim at its aligned place, on all documents of the C02/C03 workload incl. inline elements, shared lines, mutated and junk documents"),
@@ -82,7 +82,7 @@ m = {
     ],
     "checks": checks,
     "not_applicable": [],
-    "notes": "Exit codes of every check: 0 held / 1 VIOLATION line / 2 inconclusive (never folded into the others). Known findings: /verif/known_findings.json (open: KF-C08, KF-C13-L1, KF-C12-L1), printed as KNOWN-FINDING lines only when the exact classifier recognises the execution. Seeded faults used to validate the monitors: /verif/seeded/.",
+    "notes": "Exit codes of every check: 0 held / 1 VIOLATION line / 2 inconclusive (never folded into the others). Known findings: /verif/known_findings.json (open: KF-C08 only; 15 defects were repaired by fix: commits, listed there as fixed), printed as KNOWN-FINDING lines only when the exact classifier recognises the execution. Seeded faults used to validate the monitors: /verif/seeded/.",
 }
 json.dump(m, open(os.path.join(V, "MANIFEST.json"), "w"), indent=1, ensure_ascii=False)
 print("wrote MANIFEST.json with", len(checks), "checks; hook commits", hooks)
